@@ -73,7 +73,7 @@ func run(rec *fw.Rec, replay interface{}, spec *core.Spec, start *core.State, ms
 
 func Run(cfg fw.Config, rec *fw.Rec) {
 	rec.Rule = "random specs (ECMAScript actions that store integers, fractions, nested arrays/objects, nulls, inequality bounds, or fail; later bindings/message patterns that look inside those values, re-use variables against stored structures, branch on lastBindings/lastNode at a user-defined error node) x histories of 1-6 messages; twin A keeps *State in memory, twin B JSON-round-trips it at a set of message boundaries: every subset for histories of <= 4 messages, every single boundary and all boundaries beyond; per-message traces (nodes, bindings, emissions, stop reason) must be identical; non-trivial = history in which some action ran and at least 2 messages were consumed; distinct by canonical (spec,state,messages)"
-	rec.Required = []string{"twins_compared", "all_subsets_enumerated", "error_node_with_diagnostics_reloaded", "int_in_array_stored", "inspecting_pattern_present", "action_failed_in_history"}
+	rec.Required = []string{"twins_compared", "all_subsets_enumerated", "error_node_with_diagnostics_reloaded", "int_in_array_stored", "inspecting_pattern_present", "action_failed_in_history", "machines_starting_without_bindings"}
 	rec.Assume = []string{"specifications are deterministic (guarded branches have at most one candidate)", "values returned by actions are JSON-representable"}
 	n := cfg.Pick(4000, 80000)
 	fw.Parallel(cfg.Workers, n, func(w, i int) {
@@ -114,7 +114,33 @@ func Run(cfg fw.Config, rec *fw.Rec) {
 			msgs = append(msgs, gen.GenMessage(r, u.Next("m"), names))
 		}
 		replay := map[string]interface{}{"spec": a, "state": bs, "messages": msgs}
+		// a tenth of the machines start without bindings ("bs": null), as a host that hands
+		// the engine a freshly made State does
+		nilStart := i%10 == 9
+		if nilStart {
+			rec.Bucket("machines_starting_without_bindings")
+			// the error node distinguishes the shapes lastBindings can have
+			a.Nodes["error"] = &ref.ANode{Branching: &ref.ABranching{Type: "message", Branches: []*ref.ABranch{
+				{HasPattern: true, Pattern: map[string]interface{}{"uid": "?u"}, Target: "triage"},
+			}}}
+			a.Nodes["triage"] = &ref.ANode{Branching: &ref.ABranching{Type: "bindings", Branches: []*ref.ABranch{
+				{HasPattern: true, Pattern: map[string]interface{}{"lastBindings": map[string]interface{}{}}, Target: "start"},
+				{HasPattern: true, Pattern: map[string]interface{}{"lastBindings": nil}, Target: "n1"},
+				{Target: "n2"},
+			}}}
+			// and the first step fails
+			a.Nodes["start"] = &ref.ANode{Branching: &ref.ABranching{Type: "message", Branches: []*ref.ABranch{
+				{HasPattern: true, Pattern: map[string]interface{}{"uid": "?u"}, Guard: &ref.Prog{Ops: []ref.Op{{Op: "fail", V: u.Next("F")}}, Ret: "same"}, Target: "n1"},
+			}}}
+			var err error
+			if spec, err = a.Compiled(false, ref.NativeNilErr); err != nil {
+				return
+			}
+		}
 		start := func() *core.State {
+			if nilStart {
+				return &core.State{NodeName: "start"}
+			}
 			return &core.State{NodeName: "start", Bs: match.Bindings(fw.Deep(bs).(map[string]interface{}))}
 		}
 		base, ok := run(rec, replay, spec, start(), msgs, 0)
